@@ -7,6 +7,7 @@ pub mod sys;
 pub mod prop;
 pub mod cycle;
 pub mod jarstore;
+pub mod dl;
 pub mod c01;
 pub mod c02;
 pub mod c03;
